@@ -301,6 +301,43 @@ impl Scenario {
     }
 }
 
+/// A process that fails FROM OUTSIDE the instruction loop (effect error: `notify_effect_completion` sets the error,
+/// clears the frames and re-queues it; its next step runs no instruction) while awaiters — on the same worker and on
+/// others — already have their selects registered; plus, sometimes, an awaiter that comes after the failure.
+/// "Awaiters fail with the same error" must hold on every path (seeded C15-5: the same-worker notification handed
+/// `[]` as a successful result to the early awaiters).
+fn gen_effect_failure_scenario(r: &mut Rng) -> Scenario {
+    let mut procs: Vec<Role> = vec![];
+    // pads shift the failing process and its awaiters over the workers
+    for i in 0..r.usize(3) {
+        procs.push(Role::Const { v: 100 + i as i64, spin: 0 });
+    }
+    let f = procs.len();
+    let kind = *r.pick(&[FailKind::EffectAsyncError, FailKind::EffectAsyncError, FailKind::EffectSyncError, FailKind::EffectSubmitError]);
+    procs.push(Role::Fail { kind, trigger: Trigger::Go });
+    let n_aw = 1 + r.usize(3);
+    for k in 0..n_aw {
+        let form = match r.below(6) {
+            0 | 1 => AwaitForm::Single,
+            2 => AwaitForm::BigTimeoutAfter,
+            3 => AwaitForm::BigTimeoutBefore,
+            4 => AwaitForm::WithReceive,
+            _ => AwaitForm::SmallTimeoutAfter(*r.pick(&[10u64, 1000])),
+        };
+        // the first awaiter is always an early one
+        procs.push(Role::Await { target: f, form, late: k > 0 && r.chance(1, 3) });
+    }
+    let mut script = vec![];
+    // late awaiters take a Go of their own (after the failing process's)
+    script.push(Act { sleep: if r.chance(1, 3) { Some(2) } else { None }, spin: *r.pick(&[60u32, 150, 250, 400]), kind: ActKind::Go(f) });
+    for i in f + 1..procs.len() {
+        if matches!(&procs[i], Role::Await { late: true, .. }) {
+            script.push(Act { sleep: None, spin: *r.pick(&[0u32, 15, 60]), kind: ActKind::Go(i) });
+        }
+    }
+    Scenario { procs, script, main_awaits: if r.chance(1, 2) { Some(f + 1) } else { None } }
+}
+
 fn gen_scenario(r: &mut Rng) -> Scenario {
     let n = 2 + r.usize(6);
     let mut procs: Vec<Role> = vec![];
@@ -914,7 +951,7 @@ fn run_case(case: &Case, model: &mut Model, log: bool) -> Outcome {
     let sc = &case.scenario;
     let n = case.workers;
     let mut out = Outcome::default();
-    let a = model.ask(&format!("(init {n})"));
+    let a = model.ask(&if select_waits() { format!("(init {n} on)") } else { format!("(init {n})") });
     if a != "ok" {
         out.rejected = Some(format!("model init: {a}"));
         return out;
@@ -1099,6 +1136,93 @@ fn case_json(case: &Case, o: &Outcome) -> serde_json::Value {
 }
 
 
+
+/// Which implementation the model mirrors: `false` = /repo HEAD, `true` = notes/C05-fixes/01 (a FAILED target is
+/// answered in the first answer of `query_and_await`). FLIP THE DEFAULT when the patch lands;
+/// `QVERIF_SELECT_WAITS=0|1` overrides it (to run the check against a worktree that has the patch).
+const SELECT_WAITS_DEFAULT: bool = false;
+
+fn select_waits() -> bool {
+    match std::env::var("QVERIF_SELECT_WAITS").ok().as_deref() {
+        Some("1") => true,
+        Some("0") => false,
+        _ => SELECT_WAITS_DEFAULT,
+    }
+}
+
+/// A corpus witness given as plain REPL lines (no model correspondence): the lines are evaluated one after the
+/// other in one simulated system under `schedules` random schedules; the LAST line must give `expect` on every
+/// schedule, else the file's `signature` is reported (a KNOWN-FINDING while it is listed as known).
+#[derive(Clone, Debug, Serialize, Deserialize)]
+struct RawWitness {
+    lines: Vec<String>,
+    workers: usize,
+    #[serde(default)]
+    quantum: Option<usize>,
+    /// rendered outcome of the last line (`i1`, `error:InvalidArgument`, …); earlier lines are not judged
+    expect: String,
+    signature: String,
+    what: String,
+}
+
+/// outcome of the last line under schedule `k` (0 = fair rounds), plus the simulator's fault list
+fn run_raw(w: &RawWitness, base: u64, k: u64) -> (String, Vec<String>) {
+    let mut sim = Sim::new(w.workers, w.quantum, qverif::run::builtins(), false).with_repl(HashMap::new());
+    let mut r = Rng::for_case(base, k);
+    let pol = Policy::random(&mut r, w.workers);
+    let mut last = String::new();
+    for l in &w.lines {
+        last = match qverif::catch(std::panic::AssertUnwindSafe(|| {
+            if k == 0 { eval_in(&mut sim, l, None, 20000) } else { eval_in(&mut sim, l, Some((&mut r, &pol)), 20000) }
+        })) {
+            Ok(o) => o.render(),
+            Err(p) => format!("harness-panic:{p}"),
+        };
+    }
+    (last, sim.faults.iter().map(|f| format!("{f:?}")).collect())
+}
+
+fn run_raw_witnesses(dir: &str, ev: &mut Ev, schedules: u64, seed: u64) {
+    let Ok(rd) = std::fs::read_dir(dir) else { return };
+    let mut files: Vec<_> = rd.filter_map(|e| e.ok()).map(|e| e.path()).filter(|p| p.extension().map(|x| x == "json").unwrap_or(false)).collect();
+    files.sort();
+    for f in files {
+        let Ok(text) = std::fs::read_to_string(&f) else { continue };
+        let Ok(j) = serde_json::from_str::<serde_json::Value>(&text) else { continue };
+        let Ok(w) = serde_json::from_value::<RawWitness>(j["raw"].clone()) else { continue };
+        let name = f.file_name().unwrap().to_string_lossy().to_string();
+        let base = 0xC15F ^ seed;
+        let mut bad = 0u64;
+        let mut first: Option<(u64, String)> = None;
+        let n = j["schedules"].as_u64().unwrap_or(schedules);
+        for k in 0..=n {
+            let (out, faults) = run_raw(&w, base, k);
+            ev.case(&(name.as_str(), k, seed), true);
+            ev.hit("raw-witness-schedules");
+            if !faults.is_empty() {
+                ev.violation("kind=worker-internal-error", &format!("worker/environment fault in witness {name}: {faults:?}"), json!({"raw": w, "schedule_base": base, "schedule": k, "file": name}), true);
+            }
+            if out != w.expect {
+                bad += 1;
+                if first.is_none() {
+                    first = Some((k, out));
+                }
+            }
+        }
+        if let Some((k, out)) = first {
+            ev.add(&format!("raw-witness-deviating:{name}"), bad);
+            ev.violation(
+                &w.signature,
+                &format!("{} — witness {name}: last line gave `{out}` instead of `{}` on {bad} of {} schedules (first: schedule {k})", w.what, w.expect, n + 1),
+                json!({"raw": w, "schedule_base": base, "schedule": k, "file": name}),
+                true,
+            );
+        } else {
+            ev.hit(&format!("raw-witness-clean:{name}"));
+        }
+    }
+}
+
 /// Development probe (not part of the check): `QVERIF_PROBE="line1|||line2"` evaluates the lines one after
 /// the other in one simulated system (fair schedule first, then random schedules) and prints outcomes + faults.
 fn probe(spec: &str) {
@@ -1142,6 +1266,21 @@ fn main() {
     if let Some(p) = &opts.replay {
         let text = std::fs::read_to_string(p).expect("replay file");
         let j: serde_json::Value = serde_json::from_str(&text).expect("json");
+        let rj = if j.get("replay").is_some() { j["replay"].clone() } else { j.clone() };
+        if rj.get("raw").is_some() {
+            let w: RawWitness = serde_json::from_value(rj["raw"].clone()).expect("raw witness");
+            let base = rj["schedule_base"].as_u64().unwrap_or(0xC15F);
+            let k = rj["schedule"].as_u64().unwrap_or(0);
+            let (out, faults) = run_raw(&w, base, k);
+            println!("{}\nschedule {k}: last line => {out} (expected {}) faults={faults:?}", w.lines.join("\n"), w.expect);
+            if !faults.is_empty() {
+                ev.violation("kind=worker-internal-error", &format!("worker/environment fault: {faults:?}"), rj.clone(), true);
+            }
+            if out != w.expect {
+                ev.violation(&w.signature, &format!("{}: `{out}` instead of `{}`", w.what, w.expect), rj.clone(), true);
+            }
+            std::process::exit(ev.finish());
+        }
         let cj = if j.get("replay").is_some() { j["replay"]["case"].clone() } else if j.get("case").is_some() { j["case"].clone() } else { j.clone() };
         let case: Case = serde_json::from_value(cj).expect("case");
         println!("{}", case.scenario.source());
@@ -1158,6 +1297,9 @@ fn main() {
         }
         std::process::exit(ev.finish());
     }
+
+    // plain-program witnesses / regressions (corpus files with a `raw` entry)
+    run_raw_witnesses("/verif/corpus/C15", &mut ev, opts.tier.pick(100, 1000), opts.seed);
 
     let mut cases: Vec<(String, Case)> = vec![];
     let corpus_dir = "/verif/corpus/C15";
@@ -1179,6 +1321,17 @@ fn main() {
         }
     }
     let n_corpus = cases.len();
+    // dedicated families first (they must run even when the wall-clock cap cuts the random part short)
+    let n_eff = opts.tier.pick(14u64, 200);
+    for i in 0..n_eff {
+        let mut r = Rng::for_case(opts.seed ^ 0xC15E, i);
+        let sc = gen_effect_failure_scenario(&mut r);
+        for k in 0..3u64 {
+            let workers = if k == 0 { 1 } else { 1 + r.usize(3) };
+            let quantum = *r.pick(&[Some(1usize), Some(5), None]);
+            cases.push((format!("effect-failure:{i}:{k}"), Case { scenario: sc.clone(), workers, quantum, sched_seed: r.next() }));
+        }
+    }
     let n_scen = opts.tier.pick(80u64, 1300);
     let n_sched = opts.tier.pick(4u64, 10);
     for i in 0..n_scen {
